@@ -84,6 +84,7 @@ type crashPoint struct {
 
 // lifetime is one process run over a set of media.
 type lifetime struct {
+	opts   *lifetimeOpts
 	c      *sim.RunCtx
 	pp     *persistPlan
 	w      *storeWorld
@@ -140,7 +141,7 @@ func snapshotMedia(m *media) (d, i *sim.DiskSnapshot, dir *sim.DirSnapshot) {
 
 // runLifetime starts a store process over media m and runs o.script.
 func runLifetime(c *sim.RunCtx, pp *persistPlan, m *media, o *lifetimeOpts) *lifetime {
-	lt := &lifetime{c: c, pp: pp}
+	lt := &lifetime{c: c, pp: pp, opts: o}
 	cfg := pp.cfg
 	if o.maxSteps == 0 {
 		o.maxSteps = 300000
@@ -212,9 +213,7 @@ func runLifetime(c *sim.RunCtx, pp *persistPlan, m *media, o *lifetimeOpts) *lif
 			if m.dir != nil {
 				m.dir.Faults = nil
 			}
-			c.Picker.Fair = true
-			s.WaitUntil("drain", func() bool { return s.Quiescent(o.proc) && s.PendingTimers() == 0 })
-			c.Picker.Fair = false
+			lt.drain(s, o)
 			if o.afterDrain != nil && !c.Failed() {
 				o.afterDrain(lt)
 			}
@@ -238,6 +237,37 @@ func runLifetime(c *sim.RunCtx, pp *persistPlan, m *media, o *lifetimeOpts) *lif
 		}
 	})
 	return lt
+}
+
+// drainStepBudget bounds the drain phase: faults have stopped, scheduling is
+// fair and the clock jumps whenever nothing is runnable, so a correct store
+// reaches quiescence (no runnable goroutine, no pending timer) after the
+// in-flight operations and at most a few syncer rounds. The budget is more
+// than two orders of magnitude above the longest drain observed on the
+// unchanged tree (max_drain_steps in the evidence).
+const drainStepBudget = 20000
+
+// drain waits for quiescence of the store process. Where the property under
+// check is liveness (deadlockCls "stalled": C07) exceeding the budget is the
+// violation "retries never succeed / the store never settles"; elsewhere the
+// run-wide step budget turns it into a harness error.
+func (lt *lifetime) drain(s *rt.Sched, o *lifetimeOpts) {
+	c := lt.c
+	c.Picker.Fair = true
+	start := s.Steps
+	over := false
+	s.WaitUntil("drain", func() bool {
+		if o.deadlockCls == "stalled" && s.Steps-start > drainStepBudget {
+			over = true
+			return true
+		}
+		return s.Quiescent(o.proc) && s.PendingTimers() == 0
+	})
+	c.Picker.Fair = false
+	c.Max("max_drain_steps", s.Steps-start)
+	if over && !c.Failed() {
+		c.Fail("no-quiescence-after-faults-stopped", "faults stopped %d steps ago (fair scheduling, clock jumps to the next timer) and the store still has runnable goroutines or pending timers: %v; error log tail: %v", s.Steps-start, s.Blocked(), lt.w.e.log.tail(3))
+	}
 }
 
 // classifyPoint decides whether cp is a quiescent point after a completed
